@@ -797,7 +797,10 @@ static RunResult run_preempt(const Plan& p, const RunOpts& o) {
     r.sched_hash = sched_h;
     r.st.add("quanta", total_quanta);
     r.st.add("shared_stores", E.shared_stores);
-    for (int k = 0; k < nt; ++k) for (auto& rc : conc[k].recs) { log.line(strf("T%d ", k) + rc.str()); if (!rc.skipped && rc.done) r.st.add(std::string("op_") + OP_NAMES[rc.op.kind]); }
+    for (int k = 0; k < nt; ++k) for (auto& rc : conc[k].recs) {
+        log.line(strf("T%d ", k) + rc.str());
+        if (!rc.skipped && rc.done) { r.ops_run++; r.st.add(std::string("op_") + OP_NAMES[rc.op.kind]); if (rc.status >= 0) r.st.add(strf("status_%s_%s", OP_NAMES[rc.op.kind], status_name(rc.status))); }
+    }
     if (r.v.found) { r.log_hash = log.h; return r; }
     if (E.mon_violation.found) {
         r.v = E.mon_violation; r.v.prop = p.prop;
